@@ -1,4 +1,5 @@
 import InfluxQL.Lemmas.SanitizeFriendly
+import InfluxQL.Lemmas.SanitizeRe
 /-!
 # C15 — passwords never appear in printed statements or sanitized query text
 
@@ -31,6 +32,22 @@ open InfluxQL Gen InfluxQL.Sanitize
 theorem gen_patterns :
     sanitizeSetPasswordSource = /- (?i)password\s+for[^=]*=\s+(["']?[^\s"]+["']?) -/ ['(', '?', 'i', ')', 'p', 'a', 's', 's', 'w', 'o', 'r', 'd', '\\', 's', '+', 'f', 'o', 'r', '[', '^', '=', ']', '*', '=', '\\', 's', '+', '(', '[', '"', '\'', ']', '?', '[', '^', '\\', 's', '"', ']', '+', '[', '"', '\'', ']', '?', ')'] ∧
     sanitizeCreatePasswordSource = /- (?i)with\s+password\s+(["']?[^\s"]+["']?) -/ ['(', '?', 'i', ')', 'w', 'i', 't', 'h', '\\', 's', '+', 'p', 'a', 's', 's', 'w', 'o', 'r', 'd', '\\', 's', '+', '(', '[', '"', '\'', ']', '?', '[', '^', '\\', 's', '"', ']', '+', '[', '"', '\'', ']', '?', ')'] := by decide
+
+/-- The same tie at the level of pattern structure: the two atom sequences of
+`Lemmas/SanitizeRe.lean` (character classes, greedy `*` `+` `?`, the group parentheses), printed
+back to pattern syntax, are the regenerated sources. -/
+theorem gen_patterns_atoms :
+    reSrc setRe = sanitizeSetPasswordSource ∧ reSrc createRe = sanitizeCreatePasswordSource := by decide
+
+/-- The specialised matchers of the model are the textbook backtracking matcher (alternatives in
+priority order, greedy operators consume first, first complete match wins: Go's leftmost-first
+semantics at one start position) run on these atom sequences: same success, same extent of
+capture group 1 (given as the remaining text at its opening and closing parenthesis).  The
+arguments "no backtracking is left" of Model/Sanitize.lean are thereby proved, not assumed. -/
+theorem matcher_is_backtracking (xs : List Char) :
+    btMatch setRe xs = (matchSetPassword xs).map (fun m => (m.2.1 ++ m.2.2, m.2.2)) ∧
+    btMatch createRe xs = (matchCreatePassword xs).map (fun m => (m.2.1 ++ m.2.2, m.2.2)) :=
+  ⟨setRe_eq xs, createRe_eq xs⟩
 
 /-- The replacement text and the order of the passes. -/
 theorem gen_replacement :
